@@ -23,14 +23,14 @@ CMD=$(grep -o 'go test [^`]*' $D/demo_path.txt | head -1 | sed 's/[`)]*$//')
 [ -z "$CMD" ] && CMD=$(grep -o 'go run [^`]*' $D/demo_path.txt | head -1)
 echo "---- demo cmd: $CMD"
 echo "---- 1. demo on unchanged tree (expect PASS)"
-(cd $WT && timeout 600 $CMD 2>&1 | tail -5); 
+(cd $WT && timeout 600 $CMD > /tmp/try-$$.log 2>&1; echo "DEMO-UNCHANGED-EXIT=$?"; tail -3 /tmp/try-$$.log)
 echo "---- 2. demo with change (expect FAIL)"
 git -C $WT apply $D/patch.diff || { echo "PATCH DOES NOT APPLY"; exit 4; }
-(cd $WT && timeout 600 $CMD 2>&1 | tail -8)
+(cd $WT && timeout 600 $CMD > /tmp/try-$$.log 2>&1; echo "DEMO-CHANGED-EXIT=$?"; tail -6 /tmp/try-$$.log)
 echo "---- 3. full suite with change (expect PASS, TestBunch2 flaky)"
 # remove demo files for the suite run
 for f in $D/*.go; do [ -e "$f" ] || continue; b=$(basename $f); find $WT -name $b -not -path '*/_out/*' -delete; done
-(cd $WT && go build ./... && go test -vet=off -count=1 ./... 2>&1 | grep -v '^ok\|no test files' | head -20)
+(cd $WT && go build ./... && go test -vet=off -count=1 ./... > /tmp/try-$$.log 2>&1; grep -c '^ok' /tmp/try-$$.log | sed 's/^/SUITE-OK-PACKAGES=/'; grep '^--- FAIL\|^FAIL\|panic' /tmp/try-$$.log | head; rm -f /tmp/try-$$.log)
 echo "---- 4. check $P on the changed tree"
 VERIF_REPO=$WT VERIF_EVIDENCE_DIR=/tmp/try-ev-$$ /verif/bin/verifcheck check -prop $P 2>&1 | tail -6
 echo "exit=$?"
